@@ -73,8 +73,10 @@ def reference(X, tmpl, labels):
 
 def check_batch(X, tmpl, labels, p, sub):
     o = _ops()
-    tmpl_a = np.asarray(tmpl, dtype=np.float64)
-    lab_a = np.asarray(labels, dtype=np.int32)
+    tmpl_a = np.array(tmpl, dtype=np.float64)        # private copies: the kernel must not modify them, and if it
+    lab_a = np.array(labels, dtype=np.int32)          # does the reference still sees the pristine inputs
+    tmpl = tuple(float(v) for v in np.asarray(tmpl).tolist())
+    labels = tuple(int(v) for v in np.asarray(labels).tolist())
     nl = len(set(labels))
     t0, l0 = tmpl_a.copy(), lab_a.copy()
     x16 = X.astype("int16")
@@ -86,7 +88,8 @@ def check_batch(X, tmpl, labels, p, sub):
         p.violation(sub, key(0), case(0), f"tinterpolate raised {type(e).__name__}: {e}")
         return
     if not (np.array_equal(tmpl_a, t0) and np.array_equal(lab_a, l0)):
-        p.violation(sub, dict(key(0), what="inputs modified"), case(0), "tinterpolate modified its template / labels argument")
+        p.violation(sub, dict(key(0), what="inputs modified"), case(0),
+                    f"tinterpolate modified its template / labels argument: template {t0.tolist()[:12]} -> {tmpl_a.tolist()[:12]}")
     if out.shape != (X.shape[0], nl) or out.dtype != np.int16:
         p.violation(sub, dict(key(0), what="shape"), case(0), f"output shape {out.shape} dtype {out.dtype}, expected ({X.shape[0]}, {nl}) int16")
         return
